@@ -946,7 +946,8 @@ theorem build_of_stages {ns : Nat} {cf : CFile} {l0 l1 l2 : Line}
   simp only [hb]
   rw [if_neg (by rw [h0]; exact fun h => h rfl), if_neg (by rw [h1]; exact fun h => h rfl),
     if_neg (by rw [h2]; exact fun h => h rfl)]
-  simp only [hr, hnull, hrange, hchk, r1, r2, r3, Bool.not_true, Bool.false_eq_true, if_false]
+  simp only [hr, buildRows, buildMap, hnull, hrange, hchk, r1, r2, r3, Bool.not_true,
+    Bool.false_eq_true, if_false]
 
 /-! ## G. facts used by the validator soundness (C10) -/
 
